@@ -11,6 +11,11 @@
 (*    m       the blocking machine of Block.tla (sample bookkeeping)       *)
 (*    prev    index of the audio packet whose right half sits in the       *)
 (*            overlap buffer (-1 = none), prevclean = it was undamaged     *)
+(*    resync  since the last disturbance an undamaged packet that ends a   *)
+(*            page (granule position, not the last of the stream) has been *)
+(*            taken in directly after an undamaged one: the decoder has    *)
+(*            had the chance to correct its sample count; cntok = that was *)
+(*            so BEFORE the packet whose samples are pending               *)
 (*    lastk / chunkclean   packet that produced the pending samples and    *)
 (*            whether they are the overlap of two undamaged neighbours]    *)
 (* C11 in these terms: the pending samples are "clean" exactly when they   *)
@@ -28,7 +33,7 @@ SynthCodes  == {0, OV_ENOTAUDIOc, OV_EBADPACKETc}
 \* a slip in bookkeeping the caller cannot see at once (sample_count, granulepos) shows up as a wrong count later.
 InitDec == [nh |-> 0, live |-> FALSE, inited |-> FALSE, initfailed |-> FALSE, B |-> <<0, 0>>, hs |-> 0, hsdirty |-> FALSE, m |-> DecRestart(<<0, 0>>, 0),
             mm |-> DecRestart(<<0, 0>>, 0), pure |-> FALSE,
-            prev |-> -1, prevclean |-> FALSE, lastk |-> -1, chunkclean |-> FALSE, gpforced |-> FALSE]
+            prev |-> -1, prevclean |-> FALSE, lastk |-> -1, chunkclean |-> FALSE, gpforced |-> FALSE, resync |-> FALSE, cntok |-> FALSE]
 
 \* the buffer is allocated for full rate (pcm_storage = blocksizes[1] samples per channel) whatever the half-rate flag is or was:
 \* that, not the two-half ring of the current flag, is the bound that memory safety needs (the flag may be toggled in mid-stream)
@@ -62,7 +67,7 @@ ChkSynthInit(s, e) ==
   \* an initialisation that was refused (the codebooks of the set-up cannot be built) is refused again as long as no header has been submitted since
   (IF s.initfailed /\ e.ret = 0 THEN {"RefusedInitStaysRefused"} ELSE {})
 NxtSynthInit(s, e) == IF e.ret # 0 THEN [s EXCEPT !.initfailed = TRUE] ELSE [s EXCEPT !.inited = TRUE, !.hs = e.hsp, !.hsdirty = FALSE, !.m = Observed(e, e.hsp), !.mm = DecRestart(s.B, e.hsp), !.pure = (s.nh = 3),
-                                                     !.prev = -1, !.prevclean = FALSE, !.lastk = -1, !.chunkclean = FALSE, !.gpforced = FALSE]
+                                                     !.prev = -1, !.prevclean = FALSE, !.lastk = -1, !.chunkclean = FALSE, !.gpforced = FALSE, !.resync = FALSE, !.cntok = FALSE]
 
 (* ---- audio packets ---- *)
 \* e.trk = TRUE for vorbis_synthesis_trackonly
@@ -92,12 +97,14 @@ NxtSynthesis(s, e, trk) ==
   IF e.rs = 0 /\ e.rb = 0
   THEN LET mm1 == IF s.pure /\ e.W \in {0, 1} /\ DecBlockinAllowed(s.mm) THEN DecBlockin(s.B, s.mm, e.W, e.no, e.gp, e.eos = 1, ~trk) ELSE s.mm
            p1  == s.pure /\ e.W \in {0, 1} /\ DecBlockinAllowed(s.mm) IN
-       IF trk THEN [s EXCEPT !.m = Observed(e, s.hs), !.mm = mm1, !.pure = p1, !.prev = -1, !.prevclean = FALSE, !.chunkclean = FALSE, !.lastk = -1,
+       IF trk THEN [s EXCEPT !.m = Observed(e, s.hs), !.mm = mm1, !.pure = p1, !.prev = -1, !.prevclean = FALSE, !.chunkclean = FALSE, !.lastk = -1, !.resync = FALSE, !.cntok = FALSE,
                              !.gpforced = (s.gpforced \/ e.gpf = 1)]    \* no audio was decoded: the overlap is stale
        ELSE [s EXCEPT !.m = Observed(e, s.hs), !.mm = mm1, !.pure = p1, !.gpforced = (s.gpforced \/ e.gpf = 1),
+                      !.cntok = s.resync,
+                      !.resync = (s.prev = e.k - 1 /\ s.prev >= 0 /\ s.prevclean /\ e.mut = 0 /\ ~s.hsdirty /\ e.W = e.cW /\ (s.resync \/ (e.gp # -1 /\ e.eos = 0))),
                       !.chunkclean = (s.prev = e.k - 1 /\ s.prev >= 0 /\ s.prevclean /\ e.mut = 0 /\ ~s.hsdirty /\ e.W = e.cW),
                       !.lastk = e.k, !.prev = e.k, !.prevclean = (e.mut = 0 /\ ~s.hsdirty /\ e.W = e.cW)]
-  ELSE [s EXCEPT !.m = IF s.inited THEN Observed(e, s.hs) ELSE s.m]      \* a rejected packet leaves the overlap of its predecessor in place
+  ELSE [s EXCEPT !.m = IF s.inited THEN Observed(e, s.hs) ELSE s.m, !.resync = FALSE]      \* a rejected packet leaves the overlap of its predecessor in place
 
 ChkPcmOut(s, e) ==
   (IF s.nh = 3 /\ e.n # DecAvail(s.m) THEN {"PcmOutReportsPending"} ELSE {}) \cup
@@ -105,7 +112,9 @@ ChkPcmOut(s, e) ==
   \* C11: samples that are the overlap of two undamaged neighbours equal the undisturbed decode wherever both exist
   (IF s.nh = 3 /\ e.n > 0 /\ s.chunkclean /\ e.k = s.lastk /\ e.cmp = 3 THEN {"Locality"} ELSE {}) \cup
   \* ... and, with honest granule positions, they are not fewer than in the undisturbed decode (more only when the end trim was forgotten)
-  (IF s.nh = 3 /\ s.chunkclean /\ ~s.gpforced /\ e.k = s.lastk /\ e.cn >= 0 /\ e.n < e.cn THEN {"LocalityCount"} ELSE {})
+  (IF s.nh = 3 /\ s.chunkclean /\ ~s.gpforced /\ e.k = s.lastk /\ e.cn >= 0 /\ e.n < e.cn THEN {"LocalityCount"} ELSE {}) \cup
+  \* ... and not more either once the decoder could re-synchronise its count at a page end after the disturbance (the end trim of the stream then works again)
+  (IF s.nh = 3 /\ s.chunkclean /\ ~s.gpforced /\ s.cntok /\ e.k = s.lastk /\ e.cn >= 0 /\ e.n > e.cn THEN {"LocalityCount"} ELSE {})
 
 ChkRead(s, e) ==
   (IF e.ret \notin {0, OV_EINVALc} THEN {"ReadReturnsDocumentedCode"} ELSE {}) \cup
@@ -122,7 +131,7 @@ ChkRestart(s, e) ==
   (IF e.ret # 0 THEN {"RestartSucceeds"} ELSE {}) \cup
   (IF e.avail # 0 THEN {"RestartDropsPending"} ELSE {})
 NxtRestart(s, e) == [s EXCEPT !.m = Observed(e, e.hsp), !.mm = [DecRestart(s.B, e.hsp) EXCEPT !.lW = e.dlW, !.W = e.dW], !.pure = (s.nh = 3), !.hs = e.hsp, !.hsdirty = FALSE,
-                             !.prev = -1, !.prevclean = FALSE, !.chunkclean = FALSE, !.lastk = -1, !.gpforced = FALSE]
+                             !.prev = -1, !.prevclean = FALSE, !.chunkclean = FALSE, !.lastk = -1, !.gpforced = FALSE, !.resync = FALSE, !.cntok = FALSE]
 
 ChkLapOut(s, e) ==
   \* (after a half-rate toggle on a running decoder the buffer bookkeeping and the flag disagree until the next restart: the count is
